@@ -52,15 +52,17 @@ class Prop(PropBase):
                         st = {'seq': 1}
                         def mk():
                             st['seq'] += 1
-                            return scen.mems_msop(rng, l, st['seq'])
+                            # jumbo: trailing sub packets with a wrong identifier (rejected) carry other temperatures than the accepted ones
+                            bad = tuple(range(rng.randrange(30, 63), 63)) if (l.jumbo and rng.random() < 0.7) else ()
+                            return scen.mems_msop(rng, l, st['seq'], bad_subs=bad)
                     sn = [rng.randrange(256) for _ in range(6)]
                     for k in range(rng.choice([3, 5])):
-                        ev = rng.choice(['msop', 'msop', 'difop', 'bad', 'msop'])
+                        ev = 'difop' if k == 1 else rng.choice(['msop', 'msop', 'difop', 'bad', 'msop'])      # every scenario sees a DIFOP packet
                         if ev == 'msop':
                             s.pkt(0, mk())
                         elif ev == 'difop':
                             kd, vert, horiz, raw = scen.cali_table(rng, l, 'valid') if l.mech else (None, None, None, None)
-                            d = bytearray(l.difop(dual=dual, vert=vert, horiz=horiz, raw_cali=raw, rng=rng if rng.random() < 0.5 and not l.mech else None, sn=sn))
+                            d = bytearray(l.difop(dual=dual, vert=vert, horiz=horiz, raw_cali=raw, rng=rng if (not l.mech and rng.random() < 0.8) else None, sn=sn))
                             s.pkt(0, bytes(d))
                         else:
                             kind, bad = scen.malformed(rng, l, mk(), l.difop())
